@@ -907,7 +907,7 @@ def get_padded_choices(
             raise ValueError(f"Can't tell if {s} is increasing or decreasing")
         else:
             new_s = 1
-        formula = formula.xreplace({s: new_s})
+        formula = sympy.sympify(formula.xreplace({s: new_s}))
         substitutions[s] = new_s
         for k, v in substitutions.items():
             if v == s:
